@@ -38,7 +38,7 @@ def plan(plan, tier, seed):
             seen[name] = seen.get(name, 0) + 1
             o = plan.ob("C10.prose.%s%s.no_code_evaluator" % (name, "" if seen[name] == 1 else "#%d" % seen[name]), "syntactic", "bounded", bound="textual: the arm's text names no evaluator of executable code", functions=["section_element (arm %s)" % name],
                         what="the prose arm `%s` of section_element calls none of mech_code / statement / expression / eval_fenced_code_block / section_element (inline `{{..}}` evaluation happens inside paragraph_element only)" % name)
-            o.status = "discharged" if ok else "violated"
+            o.status = "undecided" if ok is None else ("discharged" if ok else "violated")
             o.detail = detail
     except AnchorLost as e:
         plan.anchor_errors.append(("C10.prose.*", str(e)))
